@@ -13,12 +13,12 @@ namespace W2c2Verif.C14
 open W2c2Verif W2c2Verif.WasiPath W2c2Verif.Dir W2c2Verif.WasiReaddir
 
 /-- the generated constants and code shapes the hand-written readdir model relies on
-    (in particular: the pinned code contains no `rewinddir`, and `seekdir` is guarded by
-    `cookie != WASI_DIRCOOKIE_START`) -/
+    (in particular: `seekdir` is guarded by `cookie != WASI_DIRCOOKIE_START` and its `else` branch
+    calls `rewinddir`) -/
 theorem gen_assumptions_readdir :
     Gen.WasiPath.direntSize = 24 ∧
     Gen.WasiPath.direntStores = [("next", 0, 8), ("inode", 8, 8), ("nameLength", 16, 4), ("fileType", 20, 1)] ∧
-    Gen.WasiPath.dirCookieStart = 0 ∧ Gen.WasiPath.readdirCallsRewind = false ∧
+    Gen.WasiPath.dirCookieStart = 0 ∧ Gen.WasiPath.readdirCallsRewind = true ∧
     Gen.WasiPath.fileTypeTests = [("S_ISCHR", 2), ("S_ISDIR", 3), ("S_ISREG", 4), ("S_ISLNK", 7), ("S_ISBLK", 1)] ∧
     Gen.WasiPath.fileTypeUnknown = 0 := by
   decide
@@ -89,49 +89,24 @@ theorem readdir_resume_any_cookie (pm : Nat) (d : Dir) (path : Bytes) (hd : DirO
   client_from pm d path hd bufPtr bufLen usedPtr hmax h24 _ p _ (some s) mem hp (by omega) hl
     (position_cookie pm d path hd.loc s mem p h1 hp)
 
-/-- **readdir_cookie0_restarts_partial.**  Cookie 0 starts at the first entry *on a descriptor
-    whose stream has not been opened yet* (this is `readdir_exactly_once`) and on an opened one
-    that still stands at the beginning.  The full statement (any opened descriptor) is false for
-    the pinned code: `readdir_cookie0_counterexample`. -/
-theorem readdir_cookie0_restarts_partial (pm : Nat) (d : Dir) (path : Bytes) (hd : DirOK pm path d)
+/-- **readdir_cookie0_restarts.**  Cookie 0 restarts the listing at the first entry on ANY
+    descriptor: one whose stream has not been opened yet, and an opened one wherever its stream
+    stands (after a partial or complete listing, or in an unspecified position).  The client
+    protocol from cookie 0 again yields every entry exactly once.
+    (Regression of the former finding `readdir-cookie0-no-rewind`: before the `rewinddir` was
+    added the stream simply continued, and a second listing of a directory came back empty; the
+    check replays that history on the real code on every run.) -/
+theorem readdir_cookie0_restarts (pm : Nat) (d : Dir) (path : Bytes) (hd : DirOK pm path d)
     (hpath : path.length < pm) (mem : Mem) (bufPtr bufLen usedPtr : Nat)
     (hmax : ∀ e ∈ d.entries, 24 + e.name.length ≤ bufLen) (h24 : 24 ≤ bufLen)
-    (hl : Layout mem.length bufPtr bufLen usedPtr) (st : Option Pos) (hst : st = none ∨ st = some (.at 0)) :
+    (hl : Layout mem.length bufPtr bufLen usedPtr) (st : Option Pos) :
     client pm d path bufPtr bufLen usedPtr (d.entries.length + 1) 0 st mem = some (recsFrom d 0 d.entries) := by
-  rcases hst with h | h <;> subst h
-  · exact readdir_exactly_once pm d path hd hpath mem bufPtr bufLen usedPtr hmax h24 hl
-  · have := client_from pm d path hd bufPtr bufLen usedPtr hmax h24 (d.entries.length + 1) 0 0 (some (.at 0)) mem
-      (by omega) (by omega) hl (position_zero_open pm d path (.at 0) mem)
+  cases st with
+  | none => exact readdir_exactly_once pm d path hd hpath mem bufPtr bufLen usedPtr hmax h24 hl
+  | some s =>
+    have := client_from pm d path hd bufPtr bufLen usedPtr hmax h24 (d.entries.length + 1) 0 0 (some s) mem
+      (by omega) (by omega) hl (position_zero_open pm d path s mem)
     simpa using this
-
-/-- On an opened descriptor cookie 0 does NOT rewind: the listing continues from wherever the
-    previous call left the stream (`seekdir` is only called for non-zero cookies and there is no
-    `rewinddir`). -/
-theorem readdir_cookie0_continues (pm : Nat) (d : Dir) (path : Bytes) (hd : DirOK pm path d)
-    (mem : Mem) (bufPtr bufLen usedPtr : Nat)
-    (hmax : ∀ e ∈ d.entries, 24 + e.name.length ≤ bufLen) (h24 : 24 ≤ bufLen)
-    (hl : Layout mem.length bufPtr bufLen usedPtr) (p : Nat) (hp : p ≤ d.entries.length) :
-    client pm d path bufPtr bufLen usedPtr (d.entries.length - p + 1) 0 (some (.at p)) mem
-      = some (recsFrom d p (d.entries.drop p)) :=
-  client_from pm d path hd bufPtr bufLen usedPtr hmax h24 _ p 0 (some (.at p)) mem hp (by omega) hl
-    (position_zero_open pm d path (.at p) mem)
-
-/-- **readdir_cookie0_counterexample.**  For EVERY non-empty directory: after it has been listed to
-    the end (stream at the end), a new listing from cookie 0 on the same descriptor delivers
-    nothing instead of all entries.  (Replayed on the real code by the check: list a directory,
-    list again from cookie 0.) -/
-theorem readdir_cookie0_counterexample (pm : Nat) (d : Dir) (path : Bytes) (hd : DirOK pm path d)
-    (mem : Mem) (bufPtr bufLen usedPtr : Nat)
-    (hmax : ∀ e ∈ d.entries, 24 + e.name.length ≤ bufLen) (h24 : 24 ≤ bufLen)
-    (hl : Layout mem.length bufPtr bufLen usedPtr) (hne : d.entries ≠ []) :
-    client pm d path bufPtr bufLen usedPtr 1 0 (some (.at d.entries.length)) mem = some [] ∧
-    some ([] : List Rec) ≠ some (recsFrom d 0 d.entries) := by
-  constructor
-  · have := readdir_cookie0_continues pm d path hd mem bufPtr bufLen usedPtr hmax h24 hl d.entries.length (Nat.le_refl _)
-    simpa [recsFrom] using this
-  · cases hd' : d.entries with
-    | nil => exact absurd hd' hne
-    | cons e l => simp [recsFrom]
 
 /-! ### non-vacuity: a concrete directory satisfying every hypothesis -/
 
